@@ -125,6 +125,8 @@
       that list (a variable holding it; `d.items()` of a dict in a field: the pairs of the dict); a plain `for` over it yields the
       2-tuples;
     * `'literal' % (a, b)` / `'literal' % a` (`Expr.format`) with `%s` directives only: `pyFormat` (`str()` of each argument);
+    * `isinstance(x, C)` (`Expr.isInstance`) on a model value: its class (`typeName`) IS `C` — an element is an `AdvancedTag`
+      (subclasses are not told apart); `text.endswith(suffix)`;
     * `return Base.m(self, args)` (`Stmt.retBase`) is `Ctx.baseMeth m`, a parameter like `Ctx.meths`: what the base class's method
       does to the object and returns (the translator checks the single base class and where it is imported from).
 -/
@@ -476,6 +478,10 @@ def callMethod (x : Val) (m : String) (args : List Val) : Except PyErr Val :=
       (match args with
        | [.py (.str a)] => .ok (.py (.bool (a.isPrefixOf s)))
        | _ => .error (unsupported "startswith of something else than a text"))
+    else if m = "endswith" then
+      (match args with
+       | [.py (.str a)] => .ok (.py (.bool (a.isSuffixOf s)))
+       | _ => .error (unsupported "endswith of something else than a text"))
     else if m = "replace" then
       (match args with
        | [.py (.str a), .py (.str b)] =>
@@ -777,6 +783,7 @@ inductive Expr where
   | elemAttr (e : Expr) (a : String)                    -- e.a, e an item of a list of elements (`l[i].a`): `Ctx.elemAttr`
   | compFor (x : String) (elt it : Expr)                -- [elt for x in it]
   | format (fmt : Str) (args : List Expr)               -- 'fmt' % (args), 'fmt' % arg: the format text is a literal
+  | isInstance (e : Expr) (cls : String)                -- isinstance(e, C) for a class C named in the source
   deriving Repr, Inhabited
 
 /-- Does the expression CREATE the list it evaluates to (so that no other name reaches the same object)? -/
@@ -1149,6 +1156,11 @@ def eval (cx : Ctx) (env : Env) : Expr → Except PyErr Val
        (match pyVals vs with
         | some ps => (match pyFormat fmt ps with | .ok t => .ok (.py (.str t)) | .error err => .error err)
         | none => .error (unsupported "format of an object")))
+  | .isInstance e c =>
+    (match eval cx env e with
+     | .error err => .error err
+     | .ok (.py v) => .ok (.py (.bool (typeName v = c)))
+     | .ok _ => .error (unsupported "isinstance of an object"))
 def evalList (cx : Ctx) (env : Env) : List Expr → Except PyErr (List Val)
   | [] => .ok []
   | e :: es =>
